@@ -19,7 +19,7 @@ RULE = ('every string of length <= 3 [quick: length 3 only in 5 of the 17 positi
         'definitions only, no Attribute/Import/Lambda/Global/class/decorator/default, every name read is local or an '
         'engine API name, no API name is assigned; (iii) dynamic - the output is loaded with __builtins__ replaced by a '
         'recording mapping and call-counting wrappers around every context entry: loading performs no call and no '
-        'builtin lookup, running the defined predicates performs no builtin lookup; texts that contain a line separator or a payload are also compiled with ALL debug options on (debug stream + code, hostile file name), written to a file and loaded through load_script_from_file - the text that the loader hands to compile() is judged by the same rules. Plus hostile queries: every attribute name of the engine object, every API '
+        'builtin lookup, running the defined predicates performs no builtin lookup; texts that contain a line separator or a payload are also compiled with debug options on (all of them; for payloads also generator only, generator+filename, parser only - what the first two lines of the file are differs), written to a file and loaded through load_script_from_file - the text that the loader hands to compile() is judged by the same rules. Plus hostile queries: every attribute name of the engine object, every API '
         'name, context key, dunder name and payload as predicate name x arity 0..3 x hostile arguments must yield '
         'nothing, call no API function through the context and touch no builtin. states = distinct (position, '
         'outcome) classes; transitions = compile/load/query operations; non-trivial = code was produced for a hostile string')
@@ -214,12 +214,19 @@ class DebugCtx:
     outf = None
 
 
-def compile_debug(text):
-    """the text a user gets with every debug option on: the debug stream followed by the code"""
+# which debug options are on decides what the FIRST lines of the output file are (trace of the
+# parser, comment naming the source file, text of the first clause) - and the first two lines of a
+# Python file are special
+DEBUG_VARIANTS = [(True, True, True), (False, True, False), (False, True, True), (True, False, False)]
+
+
+def compile_debug(text, variant=(True, True, True)):
+    """the text a user gets with debug options on: the debug stream followed by the code"""
     import io
 
     class Ctx(DebugCtx):
         pass
+    Ctx.debug_parser, Ctx.debug_generator, Ctx.debug_filename = variant
     Ctx.outf = io.StringIO()
     code = impl.compiler.compile_prolog_from_string(text, Ctx)
     return Ctx.outf.getvalue() + code
@@ -229,9 +236,10 @@ def check_program(text):
     res = check_program_1(text, False)
     if res[0] == 'ok' and res[3][0] == 'loaded' and any(c in text for c in '\r\n\x0b\x0c\x85\u2028') or MARK in text:
         if res[0] == 'ok':
-            res2 = check_program_1(text, True)
-            if res2[0] == 'violation':
-                return (res2[0], 'debug-options-on:' + res2[1], res2[2], res2[3])
+            for variant in (DEBUG_VARIANTS if MARK in text else DEBUG_VARIANTS[:1]):
+                res2 = check_program_1(text, variant)
+                if res2[0] == 'violation':
+                    return (res2[0], 'debug-options-on:' + res2[1], res2[2] + '\n(debug options: parser=%s generator=%s filename=%s)' % variant, res2[3])
     return res
 
 
@@ -239,7 +247,7 @@ def check_program_1(text, debug):
     """-> (status, sig, detail, outcome)"""
     r = rg.analyse(text)
     try:
-        out = compile_debug(text) if debug else impl.compile_text(text)
+        out = compile_debug(text, debug) if debug else impl.compile_text(text)
     except Exception as e:  # noqa: BLE001
         return ('ok', None, None, ('rejected', type(e).__name__))
     if not r.accepted:
